@@ -940,11 +940,20 @@ func r148as(c *an.Ctx, rule string, keep func(*ssa.Function) bool) {
 							oldP, newP := sf.Params[np-2], sf.Params[np-1]
 							restores := func(in ssa.Instruction) bool {
 								call, ok := in.(*ssa.Call)
-								if !ok || an.CalleeName(call) != "google.golang.org/protobuf/proto.Merge" {
+								if !ok {
 									return false
 								}
-								a0 := derives(call.Call.Args[0], map[ssa.Value]bool{newP: true}, 0)
-								a1 := derives(call.Call.Args[1], map[ssa.Value]bool{oldP: true}, 0)
+								di, si := 0, 1
+								if an.CalleeName(call) != "google.golang.org/protobuf/proto.Merge" {
+									// a helper of the module that merges one of its arguments into another
+									d, s0, _, isHelper := mergeOfParams(call.Call.StaticCallee())
+									if !isHelper || d >= len(call.Call.Args) || s0 >= len(call.Call.Args) {
+										return false
+									}
+									di, si = d, s0
+								}
+								a0 := derives(call.Call.Args[di], map[ssa.Value]bool{newP: true}, 0)
+								a1 := derives(call.Call.Args[si], map[ssa.Value]bool{oldP: true}, 0)
 								return a0 && a1
 							}
 							t, _ := an.PathQuery{Target: func(x ssa.Instruction) bool { _, isRet := x.(*ssa.Return); return isRet }, Avoid: restores}.From(sf, st)
